@@ -12,6 +12,11 @@ Property theorems only; helper lemmas in `TLX/Lemmas/QuicSession*.lean`. Every s
 C03  `session_total`, `session_total_run` (no exception leaves `handle_packet` for packets the class constructors
      can build; `session_total_counterexample`: without that, a `ShortQuicPacket` typed VERSION_NEG does — an object
      the dissector never creates), `wrong_keys_export_nothing`.
+     Repair "only an authenticated QUIC packet moves the largest packet number of its space" (45c871e):
+     `failed_packet_leaves_pn_table` (∀ s p: not authenticated ⇒ both tables unchanged, only `check_key_epoch`'s fields can
+     differ, an exception was swallowed), `unauthenticated_step_leaves_pn_table`, `wrong_keys_leave_pn_tables`,
+     `damaged_packet_leaves_pn_table`; witness on the code before (`Session.Legacy`): `legacy_pn_poisoned`, and the same
+     two packets on the repaired code: `fixed_pn_not_poisoned` (both kernel-evaluated over the toy instance).
 C02  `key_epoch_tracks_sender`, `one_rtt_exact`, `handshake_levels_exact`, `cid_learning_*`, `direction_by_cid`,
      `new_connection_id_direction`, `retry_resets`.
 -/
@@ -105,29 +110,66 @@ theorem decDecrypt_rejected (hbad : AeadRejectsAll P) (d : Dec) (pl : Option Byt
       rw [he] at h
       simp at h
 
+/-! #### only an authenticated packet moves the largest packet number (repair 45c871e) -/
+
+/-- after the decryptor lookup: the number was reconstructed, the AAD assembled, the decryptor bound and the AEAD
+    accepted the packet -/
+def PassesAead (s : St σ) (p : Pkt) (d? : Option Dec) : Prop :=
+  ∃ pn aad d pt, getFullPn s p = .ok pn ∧ assocData p = .ok aad ∧ d? = some d ∧
+    decDecrypt P d p.payload pn aad p.isServer = .ok pt
+
+/-- `decrypt_packet` got past `decryptor.decrypt(…)` -/
+def Authenticated (s : St σ) (p : Pkt) : Prop :=
+  ∃ s1 d?, selectDecryptor P s p = (s1, .ok d?) ∧ PassesAead P s1 p d?
+
+/-- every failure up to and including the AEAD check leaves the state after the decryptor lookup exactly as it was -/
+theorem decryptRest_failed (s : St σ) (p : Pkt) (d? : Option Dec) (h : ¬ PassesAead P s p d?) :
+    ∃ e, decryptRest P s p d? = (s, some e) := by
+  unfold decryptRest
+  cases hg : getFullPn s p with
+  | error e => exact ⟨e, rfl⟩
+  | ok pn =>
+    cases ha : assocData p with
+    | error e => exact ⟨e, rfl⟩
+    | ok aad =>
+      cases d? with
+      | none => exact ⟨.unbound, rfl⟩
+      | some d =>
+        cases hd : decDecrypt P d p.payload pn aad p.isServer with
+        | error e => exact ⟨e, by simp only [hd]⟩
+        | ok pt => exact absurd ⟨pn, aad, d, pt, hg, ha, rfl, hd⟩ h
+
+/-- ∀ state, ∀ packet: if `decrypt_packet` raises before the store — no decryptor, packet number / AAD not buildable,
+    AEAD check failed (wrong keys, damaged packet, garbage after header-protection removal with wrong keys) — then an
+    exception was swallowed and `packet_number_client` / `packet_number_server` are exactly what they were; the only
+    state that can have changed is what `check_key_epoch` touches (`FrameSel`), in particular nothing is exported. -/
+theorem failed_packet_leaves_pn_table (s : St σ) (p : Pkt) (h : ¬ Authenticated P s p) :
+    (decryptPacket P s p).1.pnClient = s.pnClient ∧ (decryptPacket P s p).1.pnServer = s.pnServer ∧
+    (decryptPacket P s p).1.out = s.out ∧ FrameSel s (decryptPacket P s p).1 ∧ (decryptPacket P s p).2 ≠ none := by
+  have key : FrameSel s (decryptPacket P s p).1 ∧ (decryptPacket P s p).2 ≠ none := by
+    unfold decryptPacket
+    have h1 := selectDecryptor_frame P s p
+    cases hs : selectDecryptor P s p with
+    | mk s1 r =>
+      rw [hs] at h1
+      cases r with
+      | error e => exact ⟨h1, by simp⟩
+      | ok d? =>
+        obtain ⟨e, he⟩ := decryptRest_failed P s1 p d? (fun hp => h ⟨s1, d?, hs, hp⟩)
+        simp only [he]
+        exact ⟨h1, by simp⟩
+  obtain ⟨k1, k2⟩ := key
+  have := k1
+  obtain ⟨_, _, _, _, _, heq⟩ := this
+  exact ⟨by rw [heq], by rw [heq], by rw [heq], k1, k2⟩
+
+theorem not_authenticated_of_rejects (hbad : AeadRejectsAll P) (s : St σ) (p : Pkt) : ¬ Authenticated P s p := by
+  rintro ⟨s1, d?, _, pn, aad, d, pt, _, _, _, hd⟩
+  exact decDecrypt_rejected P hbad _ _ _ _ _ _ hd
+
 theorem decryptPacket_out_rejected (hbad : AeadRejectsAll P) (s : St σ) (p : Pkt) :
-    (decryptPacket P s p).1.out = s.out := by
-  unfold decryptPacket
-  have h1 := selectDecryptor_frame P s p
-  split <;> (rename_i heq; rw [heq] at h1)
-  · obtain ⟨_, _, _, _, _, rfl⟩ := h1; rfl
-  · rename_i s1 _
-    have e1 : s1.out = s.out := by obtain ⟨_, _, _, _, _, rfl⟩ := h1; rfl
-    unfold decryptRest
-    have h2 := getFullPn_frame s1 p
-    split <;> (rename_i heq2; rw [heq2] at h2)
-    · obtain ⟨_, _, rfl⟩ := h2; exact e1
-    · rename_i s2 pn
-      have e2 : s2.out = s.out := by obtain ⟨_, _, rfl⟩ := h2; exact e1
-      split
-      · exact e2
-      · split
-        · exact e2
-        · rename_i d
-          split
-          · exact e2
-          · rename_i pt hok
-            exact absurd hok (decDecrypt_rejected P hbad _ _ _ _ _ _)
+    (decryptPacket P s p).1.out = s.out :=
+  (failed_packet_leaves_pn_table P s p (not_authenticated_of_rejects P hbad s p)).2.2.1
 
 theorem afterDecrypt_onlyVN (s : St σ) (c : Option PyErr) (p : Pkt) : OnlyVN s (afterDecrypt P s c p).st := by
   unfold afterDecrypt
@@ -820,5 +862,114 @@ example : AeadRejectsAll { params with prims := { Toy.prims with aeadOpen := fun
   fun _ _ _ _ _ _ => ⟨_, rfl⟩
 
 end Ex
+
+/-! ### the pn-store repair: witness on the old code, and what the new code guarantees instead -/
+
+/-- the three statements after the decryption attempt never touch the packet-number tables -/
+theorem afterDecrypt_pn (s : St σ) (c : Option PyErr) (p : Pkt) :
+    (afterDecrypt P s c p).st.pnClient = s.pnClient ∧ (afterDecrypt P s c p).st.pnServer = s.pnServer := by
+  unfold afterDecrypt retryReset learnCids
+  repeat' split
+  all_goals exact ⟨rfl, rfl⟩
+
+/-- one loop turn of `handle_quic_packet` on ANY packet that is not authenticated (any type, any damage): both
+    packet-number tables are what they were. -/
+theorem unauthenticated_step_leaves_pn_table (s : St σ) (p : Pkt) (h : ¬ Authenticated P s p) :
+    (stepPkt P s p).st.pnClient = s.pnClient ∧ (stepPkt P s p).st.pnServer = s.pnServer := by
+  unfold stepPkt
+  split
+  · obtain ⟨a, b, _⟩ := failed_packet_leaves_pn_table P s p h
+    obtain ⟨c, d⟩ := afterDecrypt_pn P (decryptPacket P s p).1 (decryptPacket P s p).2 p
+    exact ⟨c.trans a, d.trans b⟩
+  · exact afterDecrypt_pn P s none p
+
+theorem runPkts_pn_rejected (hbad : AeadRejectsAll P) (s : St σ) (ps : List Pkt) :
+    (runPkts P s ps).pnClient = s.pnClient ∧ (runPkts P s ps).pnServer = s.pnServer := by
+  induction ps generalizing s with
+  | nil => exact ⟨rfl, rfl⟩
+  | cons p ps ih =>
+    obtain ⟨a, b⟩ := unauthenticated_step_leaves_pn_table P s p (not_authenticated_of_rejects P hbad s p)
+    unfold runPkts
+    split
+    · exact ⟨a, b⟩
+    · obtain ⟨c, d⟩ := ih (stepPkt P s p).st
+      exact ⟨c.trans a, d.trans b⟩
+
+theorem handlePacketPre_pn (s : St σ) (dcid : Bytes) (v : Version) :
+    (handlePacketPre P s dcid v).pnClient = s.pnClient ∧ (handlePacketPre P s dcid v).pnServer = s.pnServer := by
+  unfold handlePacketPre setInitialDecryptor latchVersion
+  repeat' split
+  all_goals exact ⟨rfl, rfl⟩
+
+/-- `wrong_keys_export_nothing`, strengthened by the repair: if the AEAD accepts nothing, then over any datagram
+    sequence not only is nothing exported — the largest-packet-number tables never move either (before the repair every
+    rejected packet stored its garbage number). -/
+theorem wrong_keys_leave_pn_tables (hbad : AeadRejectsAll P) (s : St σ) (ds : List Dgram) :
+    (run P s ds).1.pnClient = s.pnClient ∧ (run P s ds).1.pnServer = s.pnServer := by
+  induction ds generalizing s with
+  | nil => exact ⟨rfl, rfl⟩
+  | cons d ds ih =>
+    unfold run
+    have h1 : (handlePacket P s d).1.pnClient = s.pnClient ∧ (handlePacket P s d).1.pnServer = s.pnServer := by
+      unfold handlePacket
+      rw [handleQuicPackets_st]
+      obtain ⟨a, b⟩ := runPkts_pn_rejected P hbad (handlePacketPre P s d.dcid d.version)
+        (d.pkts.map fun p => { p with isServer := packetIsServer (handlePacketPre P s d.dcid d.version) d.fromClientAddr d.dcid })
+      obtain ⟨c, e⟩ := handlePacketPre_pn P s d.dcid d.version
+      exact ⟨a.trans c, b.trans e⟩
+    split <;> (rename_i heq; rw [heq] at h1)
+    · exact h1
+    · obtain ⟨c, d⟩ := ih _
+      exact ⟨c.trans h1.1, d.trans h1.2⟩
+
+/-- `damaged_key_phase_advances_epoch`, strengthened by the repair: the damaged packet still advances the epoch of its
+    direction (that quirk is untouched) but no longer leaves a packet number behind. -/
+theorem damaged_packet_leaves_pn_table (hbad : AeadRejectsAll P) (s : St σ) (p : Pkt) :
+    (stepPkt P s p).st.pnClient = s.pnClient ∧ (stepPkt P s p).st.pnServer = s.pnServer :=
+  unauthenticated_step_leaves_pn_table P s p (not_authenticated_of_rejects P hbad s p)
+
+namespace ExPn
+open Ex
+
+/-- a client 1-RTT packet that does not authenticate (damaged, or garbage left by removing header protection with
+    wrong keys) and whose four packet-number bytes decode far away from anything sent: 0xfffffff0 -/
+def garbage : Pkt :=
+  { htype := .short, ptype := .rtt1, isServer := false, ts := 20, firstByte := [0x43], dcid := [0x51],
+    pn := some [0xff, 0xff, 0xff, 0xf0], payload := some (List.replicate 24 0xaa), keyPhase := some 0 }
+
+/-- the conformant packet that follows: the client's first 1-RTT packet, number 0 on one byte, one STREAM frame -/
+def lateX : SPkt :=
+  { level := .oneRtt, srv := false, ts := 21, pn := 0, pnLen := 1, frames := frames1, dcid := [0x51], gen := 0 }
+
+def late : Pkt := emit1 params Toy.laws sel .v1 k0 lateX
+
+theorem late_conformant : SendOk1 0 0 0 0 [lateX] := by
+  simp only [lateX, SendOk1, wf1, PnLenOk]
+  decide
+
+end ExPn
+
+set_option maxRecDepth 100000 in
+/-- Witness against the code BEFORE the repair (`Session.Legacy`, kernel-evaluated over the toy instance): the packet
+    that fails authentication stores its far-away number 0xfffffff0 as the largest of the client's application space,
+    and the conformant packet that follows — correctly protected, inside the RFC window of everything genuinely sent —
+    is then reconstructed next to that garbage, fails the AEAD check and exports nothing. -/
+theorem legacy_pn_poisoned :
+    (Legacy.decryptPacket Ex.params Ex.s0 ExPn.garbage).2 = some .invalidTag ∧
+    (Legacy.decryptPacket Ex.params Ex.s0 ExPn.garbage).1.pnClient.app = 0xfffffff0 ∧
+    SendOk1 0 0 0 0 [ExPn.lateX] ∧
+    (Legacy.decryptPacket Ex.params (Legacy.decryptPacket Ex.params Ex.s0 ExPn.garbage).1 ExPn.late).2 = some .invalidTag ∧
+    (Legacy.decryptPacket Ex.params (Legacy.decryptPacket Ex.params Ex.s0 ExPn.garbage).1 ExPn.late).1.out = [] :=
+  ⟨by decide +kernel, by decide +kernel, ExPn.late_conformant, by decide +kernel, by decide +kernel⟩
+
+set_option maxRecDepth 100000 in
+/-- The same two packets on the repaired code: the first still fails, the table is untouched
+    (`failed_packet_leaves_pn_table`), the second is decrypted and its STREAM frame exported. -/
+theorem fixed_pn_not_poisoned :
+    (decryptPacket Ex.params Ex.s0 ExPn.garbage).2 = some .invalidTag ∧
+    (decryptPacket Ex.params Ex.s0 ExPn.garbage).1.pnClient = Ex.s0.pnClient ∧
+    (decryptPacket Ex.params (decryptPacket Ex.params Ex.s0 ExPn.garbage).1 ExPn.late).2 = none ∧
+    (decryptPacket Ex.params (decryptPacket Ex.params Ex.s0 ExPn.garbage).1 ExPn.late).1.out = expectedOf .rtt1 ExPn.lateX :=
+  ⟨by decide +kernel, by decide +kernel, by decide +kernel, by decide +kernel⟩
 
 end TLX.Props.C02Session
